@@ -4,6 +4,8 @@
 //                                        with each argument rendered as source text
 //   facts cases  <file.go> <func>        prints the case labels of every switch in the named function
 //   facts constsoftype <pkgdir> <Type>   prints "<name> <value>" for every package-level constant of the named type
+//   facts maplit <file.go> <varname>     prints "<key src>\t<value src>" per entry of the composite (map) literal that
+//                                        initialises the package-level variable; fails if the variable is missing
 package main
 
 import (
@@ -190,6 +192,43 @@ func main() {
 		}
 		if !found {
 			fail("func %s not found in %s", os.Args[3], os.Args[2])
+		}
+	case "maplit":
+		fset := token.NewFileSet()
+		f, err := parser.ParseFile(fset, os.Args[2], nil, parser.SkipObjectResolution)
+		if err != nil {
+			fail("parse: %v", err)
+		}
+		found := false
+		for _, d := range f.Decls {
+			gd, ok := d.(*ast.GenDecl)
+			if !ok || gd.Tok != token.VAR {
+				continue
+			}
+			for _, sp := range gd.Specs {
+				vs := sp.(*ast.ValueSpec)
+				for i, nm := range vs.Names {
+					if nm.Name != os.Args[3] || i >= len(vs.Values) {
+						continue
+					}
+					cl, ok := vs.Values[i].(*ast.CompositeLit)
+					if !ok {
+						fail("variable %s is not initialised by a composite literal", os.Args[3])
+					}
+					found = true
+					fmt.Printf("#type\t%s\n", src(fset, cl.Type))
+					for _, e := range cl.Elts {
+						kv, ok := e.(*ast.KeyValueExpr)
+						if !ok {
+							fail("entry of %s is not key: value", os.Args[3])
+						}
+						fmt.Printf("%s\t%s\n", src(fset, kv.Key), src(fset, kv.Value))
+					}
+				}
+			}
+		}
+		if !found {
+			fail("variable %s not found in %s", os.Args[3], os.Args[2])
 		}
 	case "funcsrc":
 		// prints the normalised source text of a function (or method "Recv.Name") — a change detector
